@@ -107,4 +107,10 @@ def obligations(ctx, cfg):
     from props.C16 import CreateSubscription
     cs = CreateSubscription(ctx, abandon=False)
     cs.id = 'C01.e-create-attaches'
-    return _obligations_c01(ctx, cfg) + [PublisherHistory(), cs]
+    # push is a consumer like any other: an attempt that failed (status or transport) must leave the message deliverable (nack), only an
+    # accepted one may remove it (ack) - C14.a's obligation under C01's id
+    from props.C14 import Dispatch
+    dp = Dispatch(ctx)
+    dp.budget = 1 if cfg['tier'] == 'quick' else 3
+    dp.id = 'C01.i-push-attempt-settles-the-delivery'
+    return _obligations_c01(ctx, cfg) + [PublisherHistory(), cs, dp]
